@@ -1,5 +1,12 @@
-"""C18 — the shared token pool honours its init/drain/free protocol (rapidcheck state machine, asan variant)."""
-from lib import rcrun
+"""C18 — the shared token pool honours its init/drain/free protocol (rapidcheck state machine, asan variant; CLI bracket enumeration)."""
+import itertools
+import json
+import os
+import shutil
+import subprocess
+from concurrent.futures import ThreadPoolExecutor
+
+from lib import common, rcrun, vbuild
 
 PROP = 'C18'
 RULE = ('rapidcheck state machine over {init, drain, free, convert(doc,fmt,ext), parse-and-hold(doc), inspect} with preconditions enforced by '
@@ -7,9 +14,95 @@ RULE = ('rapidcheck state machine over {init, drain, free, convert(doc,fmt,ext),
         'the 1024-token slab (1..3000 emphasis runs) and include multi-slab documents (>5000 tokens). Oracle after every command: conversion '
         'output equals the pristine-pool reference; every held tree is addressable (ASan) and structurally unchanged until the OUTERMOST drain; '
         'after it every held root and a token from each slab is poisoned and the allocator reports the slabs released; after free+init results '
-        'are unchanged. Non-trivial: history with a nested init/drain or a re-init after free AND a multi-slab document; distinct by command list.')
+        'are unchanged. Second leg (enumerated completely): the command-line tool, which is the one in-tree caller that nests init/drain pairs, is run over the product of its modes '
+        '({stdin, 1..3 files} x {-b} x {-m, -e KEY, convert} x format x {-c, -a, -f, -s}) and must leave the pool balanced: no pool diagnostic on stderr, exit status 0, no sanitizer report. Non-trivial: history with a nested init/drain or a re-init after free AND a multi-slab document; distinct by command list.')
 ASSUMPTIONS = ['only properly bracketed histories are generated (an unbalanced drain/free is a caller error, not an input)',
                'ASan poisoning is the observation for "memory released"; __sanitizer_get_current_allocated_bytes for the amount',
                'the global pool is restored to pristine (drained, freed) by the harness around every generated case']
 _rc = rcrun.RC(PROP, 'c18_pool', 'c18_pool.cpp', RULE, ASSUMPTIONS, quick=1500, thorough=40000, max_size=40)
-prebuild, replay, run = _rc.prebuild, _rc.replay, _rc.run
+
+
+# ---- CLI leg: every mode of the command-line tool closes the brackets it opens -------------------------------------------------------
+FILES = {'meta.txt': 'Title: T\nAuthor: A\n\n# Head #\n\nsome *text* here[^n]\n\n[^n]: a note\n',
+         'plain.txt': 'plain *paragraph*\n\n* item\n* item\n',
+         'big.txt': 'Title: Big\n\n' + ''.join('*w%d* ' % i + ('\n\n' if i % 40 == 39 else '') for i in range(3000)) + '\n',     # several slabs
+         'opml.opml': '<?xml version="1.0" encoding="UTF-8"?>\n<opml version="1.0">\n<head><title>T</title></head>\n<body>\n<outline text="Head" _note="body *text*"></outline>\n'
+                      '<outline text="Metadata"><outline text="title" _note="T"/></outline>\n</body>\n</opml>\n'}
+FILESETS = [[], ['meta.txt'], ['plain.txt', 'meta.txt'], ['meta.txt', 'big.txt', 'plain.txt'], ['big.txt', 'big.txt']]
+
+
+def cli_cases():
+    for files, batch, query, fmt, extra in itertools.product(FILESETS, [[], ['-b']], [[], ['-m'], ['-e', 'title'], ['-e', 'nosuchkey']],
+                                                             ['html', 'latex', 'opml', 'fodt', 'mmd', 'epub'],
+                                                             [[], ['-c'], ['-a'], ['-f'], ['-s'], ['--nosmart', '--nolabels']]):
+        if batch and not files:
+            continue
+        if fmt == 'epub' and not batch:
+            continue                    # binary output on stdout: nothing different for the pool
+        yield dict(files=files, args=batch + query + ['-t', fmt] + extra)
+    for batch in ([], ['-b']):
+        for query in ([], ['-m'], ['-e', 'title']):
+            yield dict(files=['opml.opml'], args=batch + query + ['--opml', '-t', 'html'])
+
+
+def cli_one(case, work):
+    cli = vbuild.cli('asan')
+    d = os.path.join(work, 'c%s' % common.sha(json.dumps(case, sort_keys=True)))
+    os.makedirs(d, exist_ok=True)
+    for f in set(case['files']):
+        open(os.path.join(d, f), 'w').write(FILES[f])
+    env = common.san_env()         # (leak detection stays off here: the archive writers never call mz_zip_writer_end(), which is not pool memory)
+    p = subprocess.run([cli] + case['args'] + case['files'], cwd=d, env=env, input=(FILES['meta.txt'].encode() if not case['files'] else b''),
+                       stdout=subprocess.PIPE, stderr=subprocess.PIPE, timeout=300)
+    shutil.rmtree(d, ignore_errors=True)
+    err = p.stderr.decode(errors='replace')
+    sig = common.san_signature(err)
+    if sig:
+        return 'cli:' + common.sig_str(sig), err[-2000:]
+    if 'token pool' in err:
+        return 'cli:pool-still-in-use-at-exit', err[-600:]
+    if p.returncode != 0:
+        return 'cli:exit-status-%d' % p.returncode, err[-600:]
+    return None
+
+
+def cli_leg(ev, failures, tier):
+    work = common.scratch_dir('c18cli')
+    cases = list(cli_cases())
+    with ThreadPoolExecutor(common.NCPU) as ex:
+        res = list(ex.map(lambda c: cli_one(c, work), cases))
+    shutil.rmtree(work, ignore_errors=True)
+    seen = set()
+    for c, r in zip(cases, res):
+        ev.evaluations += 1
+        ev.add_class('cli_invocations')
+        if '-b' in c['args'] and len(c['files']) > 1:
+            ev.add_class('cli_batch_with_several_files')
+            ev.nontrivial.add(common.sha(json.dumps(c, sort_keys=True)))
+        if r and r[0] not in seen:
+            seen.add(r[0])
+            rp = common.save_replay(PROP, 'c18-cli-%s.json' % common.sha(json.dumps(c, sort_keys=True)), json.dumps(dict(signature=r[0], case=c, detail=r[1]), indent=1))
+            failures.append((rp, r[0]))
+    ev.sample(json.dumps(cases[len(cases) // 2]))
+    ev.add_class('cli_mode_product_enumerated_completely')
+
+
+def cli_replay(path):
+    doc = json.load(open(path))
+    work = common.scratch_dir('c18cli-replay')
+    r = cli_one(doc['case'], work)
+    shutil.rmtree(work, ignore_errors=True)
+    if r:
+        print(r[1])
+    return r[0] if r else None
+
+
+_rc.extra, _rc.extra_replay = cli_leg, cli_replay
+
+
+def prebuild():
+    _rc.prebuild()
+    vbuild.cli('asan')
+
+
+replay, run = _rc.replay, _rc.run
